@@ -9,6 +9,7 @@ import (
 	"reflect"
 	"strings"
 
+	"github.com/cloudspannerecosystem/memefish"
 	"github.com/cloudspannerecosystem/memefish/ast"
 )
 
@@ -254,6 +255,17 @@ func (g *gramRun) sentence(s *sentence) {
 		}
 	}
 	checkSpans(plain, text0, starts0, ends0, n0)
+	// the same sentence at a non-zero offset (second statement of a list / inside parentheses / as an array element
+	// type): every position of the tree moves by the length of what precedes it
+	if g.want("C06") && shapeOK {
+		if pre, n := offsetContext(s.Start, text0); n != nil {
+			st, en := make([]int, len(starts0)), make([]int, len(ends0))
+			for i := range starts0 {
+				st[i], en[i] = starts0[i]+len(pre), ends0[i]+len(pre)
+			}
+			checkSpans(profile{Name: "offset"}, pre+text0, st, en, n)
+		}
+	}
 
 	// ---- C04: SQL/Pos/End on every node, traversals (also pairs of trees for the *Many variants) -----
 	if g.want("C04") {
@@ -384,6 +396,36 @@ func (g *gramRun) sentence(s *sentence) {
 	if g.want("C06") && roundTrip {
 		g.sliceChecks(s, text0, n0, d0, spec)
 	}
+}
+
+// offsetContext parses text behind a prefix and returns the node that corresponds to the sentence's root.
+func offsetContext(start, text string) (pre string, n ast.Node) {
+	defer func() {
+		if recover() != nil {
+			n = nil
+		}
+	}()
+	switch rootClass(start) {
+	case "expr":
+		pre = "( "
+		e, err := memefish.ParseExpr("", pre+text+" )")
+		if p, ok := e.(*ast.ParenExpr); ok && err == nil {
+			return pre, p.Expr
+		}
+	case "type":
+		pre = "ARRAY< "
+		t, err := memefish.ParseType("", pre+text+" >")
+		if a, ok := t.(*ast.ArrayType); ok && err == nil {
+			return pre, a.Item
+		}
+	default:
+		pre = "SELECT 1 ;\n"
+		stmts, err := memefish.ParseStatements("", pre+text)
+		if err == nil && len(stmts) == 2 {
+			return pre, stmts[1]
+		}
+	}
+	return pre, nil
 }
 
 func dirOf(start string) string {
